@@ -12,6 +12,7 @@ INV_PROP = {'OneProposalPerView': 'C03', 'OneResponsePerView': 'C03', 'OneCommit
             'CommitEvidence': 'C04', 'ViewEvidence': 'C04', 'ResponseEvidence': 'C04', 'OneDecision': 'C05', 'PreBlockOnce': 'C07',
             'PhaseOrder': 'C07', 'AmevOff': 'C07', 'TimerOK': 'C10', 'Silent': 'C13', 'HeldTxsBelong': 'C11', 'PrimaryOK': 'C06',
             'PreCertificate': 'C02', 'Certificate': 'C02', 'ResetClean': 'C05', 'EarlyUsed': 'C05',
+            'MinGap': 'C16', 'EmptyAfterMax': 'C16', 'ExactGapWhenOff': 'C16', 'NotLate': 'C16', 'Prompt': 'C16', 'SubscribeOnlyIfOn': 'C16',
             'NeverAsks': 'C08', 'View0': 'C08', 'Decides': 'C08', 'TheBlock': 'C08'}
 
 def node_cfg(name, me=1, h=2, maxview=1, amev=False, watch=False, dyn=False, family=('core',), dev=True, weaken=(), invs=None, n=4,
@@ -79,6 +80,15 @@ SYNC_FAMILIES = [sync_cfg('sync-backup', me=1), sync_cfg('sync-primary-first', m
                  sync_cfg('sync-backup-far', me=0),
                  sync_cfg('sync-amev-backup', me=1, amev=True), sync_cfg('sync-amev-primary', me=2, amev=True),
                  sync_cfg('sync-n7-backup', n=7, me=1, two=False), sync_cfg('sync-n7-primary', n=7, me=2, two=False)]
+
+def dyn_cfg(name, dyn=True, amev=False, heights=3):
+    b = lambda v: 'TRUE' if v else 'FALSE'
+    txt = ('SPECIFICATION Spec\nCONSTANTS\n  DynOn = %s\n  AmevOn = %s\n  Heights = %d\n  Emit = FALSE\n  CoverMod = 1\nCONSTRAINT TimeBound\nVIEW View\n'
+           'INVARIANTS MinGap EmptyAfterMax ExactGapWhenOff NotLate Prompt NeverAsks SubscribeOnlyIfOn View0 TimerOK\nCHECK_DEADLOCK FALSE\n' % (b(dyn), b(amev), heights))
+    return dict(name=name, module='MC_Dyn', cfg=txt)
+
+# C16 at design level: a single-validator network against a clock (spec/MC_Dyn.tla)
+DYN_FAMILIES = [dyn_cfg('dyn-on'), dyn_cfg('dyn-off', dyn=False), dyn_cfg('dyn-on-amev', amev=True), dyn_cfg('dyn-on-long', heights=5)]
 
 def run_tlc(item, wd, workers=4, cap=1800, simulate=None, cover=0):
     sd = os.path.join(wd, 'mc-' + item['name']); os.makedirs(sd, exist_ok=True)
@@ -255,6 +265,8 @@ def design(tier, wd, vh=None, names=None, module='MC_Node'):
     sh = spec_hash()
     if module == 'MC_Sync':
         items = [('fresh', i) for i in SYNC_FAMILIES]
+    elif module == 'MC_Dyn':
+        items = [('fresh', i) for i in DYN_FAMILIES]
     else:
         items = [('fresh', i) for i in NODE_FAMILIES['quick']] + [('cached', i) for i in NODE_FAMILIES['cached']]
         if tier != 'quick':
